@@ -50,7 +50,7 @@ Definition with_sep (sep_on_write : bool) (sep : str) (t : str) : str :=
 (* the text before the E-notation truncation value[:size] *)
 Definition float_text_full (sep_on_write : bool) (width dd : nat) (sci upper : bool) (sep : str) (x : spec_float) : str :=
   if sci && negb (is_zero x)
-  then with_sep sep_on_write sep (fmtE upper x dd)
+  then with_sep sep_on_write sep (fmtE upper (sci_val x dd) dd)
   else first_fit (fun d => with_sep sep_on_write sep ((if sci then fmtE else fmtF) upper x d)) width dd.
 Definition float_text (sep_on_write : bool) (width dd : nat) (sci upper : bool) (sep : str) (x : spec_float) : str :=
   let t := float_text_full sep_on_write width dd sci upper sep x in
@@ -62,7 +62,9 @@ Definition render_gen (sep_on_write : bool) (f : field) (v : value) : option str
     match kind f, v with
     | KLit, VStr s => Some (ljust (size f) s)
     | KInt, VInt z => Some (rjust (size f) (str_of_Z z))
-    | KFloat dd sci upper sep, VFloat x => Some (rjust (size f) (float_text sep_on_write (size f) dd sci upper sep x))
+    | KFloat dd sci upper sep, VFloat x =>
+        if sci && sci_raises x dd then None
+        else Some (rjust (size f) (float_text sep_on_write (size f) dd sci upper sep x))
     | KDate (fmt :: _), VDate d => Some (ljust (size f) (strftime fmt d))
     | _, _ => None
     end.
